@@ -7,8 +7,10 @@ import (
 	"context"
 	"encoding/json"
 	"fmt"
+	"os"
 	"reflect"
 	"strings"
+	"sync"
 	"testing"
 	"time"
 	"unicode/utf8"
@@ -43,6 +45,8 @@ type c14Res struct {
 type c14Case struct {
 	Results []c14Res `json:"results"`
 	Unique  bool     `json:"unique_logger"`
+	// scan errors are logged from another goroutine while results are being written (command/root.go does exactly that)
+	ErrorsEvery int `json:"concurrent_error_every_us,omitempty"`
 }
 
 func c14Build(r c14Res) (scan.Result, map[string]interface{}) {
@@ -181,7 +185,18 @@ func c14Check(c c14Case) *kit.Verdict {
 	}
 	v.NonTrivial = len(c.Results) >= 2 && hostile
 	var out bytes.Buffer
+	c14Stderr.Lock()
+	saved := os.Stderr
+	if c.ErrorsEvery > 0 {
+		// the error records go to the process's stderr: not under test here, and there are many
+		if null, err := os.OpenFile(os.DevNull, os.O_WRONLY, 0); err == nil {
+			defer null.Close()
+			os.Stderr = null
+		}
+	}
 	lg, err := NewLogger(&out, "c14", JSON())
+	os.Stderr = saved
+	c14Stderr.Unlock()
 	if err != nil {
 		return v.Failf("NewLogger: %v", err)
 	}
@@ -196,6 +211,25 @@ func c14Check(c c14Case) *kit.Verdict {
 	go func() {
 		defer close(done)
 		logger.LogResults(context.Background(), ch)
+	}()
+	stopErrs := make(chan struct{})
+	errsDone := make(chan struct{})
+	go func() {
+		defer close(errsDone)
+		if c.ErrorsEvery <= 0 {
+			return
+		}
+		for i := 0; ; i++ {
+			select {
+			case <-stopErrs:
+				return
+			default:
+			}
+			logger.Error(fmt.Errorf("scan error %d", i))
+			if c.ErrorsEvery > 1 {
+				time.Sleep(time.Duration(c.ErrorsEvery) * time.Microsecond)
+			}
+		}
 	}()
 	for _, r := range c.Results {
 		res, want := c14Build(r)
@@ -216,6 +250,8 @@ func c14Check(c c14Case) *kit.Verdict {
 	case <-time.After(30 * time.Second):
 		return v.Failf("LogResults did not return after the result channel was closed")
 	}
+	close(stopErrs)
+	<-errsDone
 	text := out.String()
 	if text != "" && !strings.HasSuffix(text, "\n") {
 		return v.Failf("output does not end with a newline: %q", clipS(text))
@@ -350,6 +386,41 @@ func TestC14JSON(t *testing.T) {
 			return c
 		},
 		Check: c14Check,
+	})
+}
+
+var c14Stderr sync.Mutex
+
+func TestC14ConcurrentErrors(t *testing.T) {
+	kit.Run(t, kit.Spec[c14Case]{
+		Prop: "C14",
+		Rule: "as TestC14JSON / TestC14Unique with 300..20000 short results while a second goroutine logs scan errors through the same logger (every 1..200 us), as the scan engine does; same oracle: every result exactly one faithful line, in order. non-trivial: >=2 results; distinct by case",
+		Gen: func(t *rapid.T) c14Case {
+			n := rapid.SampledFrom([]int{300, 3000, 20000}).Draw(t, "n")
+			c := c14Case{Unique: rapid.IntRange(0, 3).Draw(t, "unique") == 0, ErrorsEvery: rapid.SampledFrom([]int{1, 20, 200}).Draw(t, "errors-every-us")}
+			kinds := []string{"arp", "icmp", "tcpsyn", "udp", "socks"}
+			base := make([]c14Res, 8)
+			for i := range base {
+				base[i] = c14GenRes(t, kinds, nil)
+				for _, f := range []*[]byte{&base[i].S1, &base[i].S2, &base[i].S3} {
+					if len(*f) > 40 {
+						*f = (*f)[:40]
+					}
+				}
+			}
+			for i := 0; i < n; i++ {
+				r := base[i%len(base)]
+				r.S1 = append(append([]byte{}, r.S1...), []byte(fmt.Sprintf("-%d", i))...)
+				r.N1 = uint16(i)
+				c.Results = append(c.Results, r)
+			}
+			return c
+		},
+		Check: func(c c14Case) *kit.Verdict {
+			v := c14Check(c)
+			v.NonTrivial = len(c.Results) >= 2
+			return v
+		},
 	})
 }
 
